@@ -1,6 +1,7 @@
 import Mp.ProofsFn
 import Mp.ProofsArr
 import Mp.AnyOfProofs
+import Mp.ProofsSel
 /-! C17 — property theorems (proved in the imported modules; statements are checked there, axioms audited here). -/
 #print axioms Mp.count_spec
 #print axioms Mp.asArray_spec
@@ -17,3 +18,8 @@ import Mp.AnyOfProofs
 #print axioms Mp.any_spec
 #print axioms Mp.anyOf_dec_iff
 #print axioms Mp.anyOf_str_iff
+#print axioms Mp.selectOn_slice
+#print axioms Mp.selectOn_array
+#print axioms Mp.select_spec
+#print axioms Mp.select_first_failure
+#print axioms Mp.select_scalar_length
